@@ -30,7 +30,8 @@ def check(run, prog, tier):
     run.trusted_base = ["exp(-(E-min E)/kT) has at least one term equal to 1, so its sum cannot underflow to 0",
                         "numpy.diag of a real vector is a real diagonal (Hermitian) matrix"]
     run.rule("C14-A", "Boltzmann exponents are shift-invariant (relative to the minimum)", minimum=2)
-    run.rule("C14-B", "zero-temperature guard dominates division by kT and selects the lowest state", minimum=2)
+    run.rule("C14-B", "zero-temperature guard dominates division by kT and selects the lowest state; states of equal lowest "
+                      "energy share the population", minimum=2)
     run.rule("C14-C", "eigenbasis-typed values are wrapped inside the same basis context", minimum=2)
     run.rule("C14-D", "thermal states are diagonal with weights w/sum(w); impulsive state is D.rho.D", minimum=4)
     run.rule("C14-E", "Boltzmann exponents use internal-unit energies", minimum=4)
@@ -49,6 +50,9 @@ def check(run, prog, tier):
     run.rule("C14-G", "the reorganisation energy subtracted from a state of the band is that of the molecule excited in the "
                       "state (states are vibronic, reorganisation energies belong to sites)", minimum=1)
     rule_G(run, prog)
+    run.rule("C14-H", "initial states are handed out for every kind of bath the aggregate can have: none, correlation functions, "
+                      "relaxation rates (what the bath does not define is asked for, not assumed)", minimum=4)
+    rule_H(run, prog)
 
 
 def rule_G(run, prog):
@@ -203,7 +207,27 @@ def rule_B(run, prog, sites):
                 ds = [d for d in guard.body if isinstance(d, ast.Assign) and norm(d.targets[0]) == idx.id]
                 lowest = len(ds) == 1 and any(isinstance(c, ast.Call) and call_name(c) == "argmin"
                                               for c in ast.walk(ds[0].value))
-        run.obligation("C14-B", f.short, ok and lowest, key="zero-T-lowest-state",
+        # the other admissible form: every state at the lowest energy gets the same share (a mask from a comparison with
+        # the minimum, normalised by its sum)
+        mask = False
+        for n_ in guard.body:
+            for x_ in ast.walk(n_):
+                if isinstance(x_, ast.Assign) and isinstance(x_.value, ast.Compare) and any(
+                        isinstance(c_, ast.Call) and call_name(c_) in ("amin", "min") for c_ in ast.walk(x_.value)) or (
+                        isinstance(x_, ast.Assign) and isinstance(x_.value, ast.Compare) and any(
+                            isinstance(y_, ast.Name) and any(isinstance(d_, ast.Assign) and norm(d_.targets[0]) == y_.id and
+                                                             any(isinstance(c_, ast.Call) and call_name(c_) in ("amin", "min") for c_ in ast.walk(d_.value))
+                                                             for d_ in guard.body) for y_ in ast.walk(x_.value))):
+                    mname = norm(x_.targets[0])
+                    mask = mask or any(isinstance(z_, ast.BinOp) and isinstance(z_.op, ast.Div) and norm(z_.left) == mname
+                                       and isinstance(z_.right, ast.Call) and call_name(z_.right) == "sum" and norm(z_.right.args[0]) == mname
+                                       for b_ in guard.body for z_ in ast.walk(b_))
+        run.obligation("C14-B", f.short, mask, key="zero-T-equal-energies",
+                       message="at zero temperature %s puts all population on one state chosen by position (%s): states of the same "
+                               "lowest energy have populations in the ratio exp(0) = 1 at every temperature above zero, and the T = 0 "
+                               "state is not the limit of those" % (f.short, norm(stores[0])[:40] if stores else "?"), loc=f.loc(guard),
+                       sample={"site": f.short})
+        run.obligation("C14-B", f.short, (ok and lowest) or mask, key="zero-T-lowest-state",
                        message="at zero temperature all population must go to the state of lowest energy "
                                "(argmin, or index 0 inside an eigenbasis context); otherwise the T -> 0 limit of "
                                "the Boltzmann populations differs from the T = 0 state", loc=f.loc(guard),
@@ -497,3 +521,69 @@ def rule_E(run, prog, sites):
         run.obligation(rid, s["func"].short, bool(kb), key="kB-internal",
                        message="temperature must be converted with the internal-units Boltzmann constant", loc=s["func"].loc(s["call"]),
                        sample={"site": s["func"].short, "denominator": norm(s["den"])})
+
+
+def rule_H(run, prog):
+    """'Every density matrix the builders hand out as an initial condition is finite ...' - for every system, whatever bath
+    it has.  An aggregate may have no system-bath interaction (self.sbi is None), one given by correlation functions, or
+    one given by relaxation rates (Lindblad form), for which SystemBathInteraction has no correlation functions (CC is
+    None), has_temperature() is False and get_reorganization_energy() / get_correlation_time() return None.
+    (i) In the methods that produce or parametrise the initial states, self.sbi is dereferenced only where it is known
+    not to be None.  (ii) The temperature of the bath is read only through self.sbi.get_temperature() on the branch where
+    self.sbi.has_temperature() holds - never from self.sbi.CC directly.  (iii) The value of an accessor of the interaction
+    that can return None is bound to a name which is compared with None before it is used."""
+    from .c08 import _unguarded_derefs
+    from ..loader import parents_map
+    rid = "C14-H"
+    cls = prog.cls("quantarhei.builders.aggregate_base.AggregateBase")
+    sbi = prog.cls("quantarhei.qm.liouvillespace.systembathinteraction.SystemBathInteraction")
+    may_none = {nme for nme, fn in sbi.methods.items()
+                if any(isinstance(r, ast.Return) and isinstance(r.value, ast.Constant) and r.value.value is None for r in ast.walk(fn.node))}
+    if "get_reorganization_energy" not in may_none:
+        raise AnalysisError("SystemBathInteraction.get_reorganization_energy no longer has a 'return None' path")
+    for nme in ("get_temperature", "_get_DensityMatrix"):
+        fn = cls.methods[nme]
+        prog.consulted.add(fn.relpath)
+        pm = parents_map(fn.node)
+        d = _unguarded_derefs(fn, {"sbi"})
+        run.obligation(rid, fn.short, not d, key="bath-may-be-absent",
+                       message="%s dereferences self.sbi (%s) where it may be None: an aggregate without a bath cannot be given its "
+                               "initial state" % (fn.short, norm(list(d.values())[0]) if d else ""),
+                       loc=fn.loc(list(d.values())[0]) if d else fn.loc(fn.node))
+        # (ii)
+        direct = [x for x in ast.walk(fn.node) if isinstance(x, ast.Attribute) and x.attr == "CC" and norm(x.value) == "self.sbi"]
+        reads = [x for x in ast.walk(fn.node) if isinstance(x, ast.Call) and norm(x.func) == "self.sbi.get_temperature"]
+        ok = not direct
+        for c in reads:
+            g, node = False, c
+            while node is not None and node is not fn.node:
+                p_ = pm.get(node)
+                if isinstance(p_, ast.If) and norm(p_.test) == "self.sbi.has_temperature()" and any(node is b for b in p_.body):
+                    g = True
+                for fld in ("body", "orelse"):
+                    blk = getattr(p_, fld, None)
+                    if isinstance(blk, list) and node in blk:
+                        for prev in blk[:blk.index(node)]:
+                            if isinstance(prev, ast.If) and norm(prev.test) == "not self.sbi.has_temperature()" \
+                                    and isinstance(prev.body[-1], (ast.Return, ast.Raise)):
+                                g = True
+                node = p_
+            ok = ok and g
+        run.obligation(rid, fn.short, ok and bool(reads), key="temperature-asked-for",
+                       message="%s reads the temperature of the bath %s: a bath given by relaxation rates has no correlation functions "
+                               "(CC is None) and no temperature, the call raises AttributeError and the thermal and delta-excited "
+                               "states cannot be handed out" % (fn.short, "from self.sbi.CC directly" if direct else
+                                                                "outside the branch where self.sbi.has_temperature() holds"),
+                       loc=fn.loc((direct or reads or [fn.node])[0]))
+        # (iii)
+        for c in [x for x in ast.walk(fn.node) if isinstance(x, ast.Call) and isinstance(x.func, ast.Attribute)
+                  and norm(x.func.value) == "self.sbi" and x.func.attr in may_none and x.func.attr != "get_temperature"]:
+            p_ = pm.get(c)
+            name = p_.targets[0].id if isinstance(p_, ast.Assign) and len(p_.targets) == 1 and isinstance(p_.targets[0], ast.Name) else None
+            tested = name is not None and any(isinstance(t_, ast.Compare) and norm(t_.left) == name and isinstance(t_.ops[0], (ast.Is, ast.IsNot))
+                                              and isinstance(t_.comparators[0], ast.Constant) and t_.comparators[0].value is None
+                                              for t_ in ast.walk(fn.node))
+            run.obligation(rid, fn.short, tested, key="may-be-None:" + c.func.attr,
+                           message="%s uses the value of self.sbi.%s(...) without comparing it with None: for a bath given by relaxation "
+                                   "rates the accessor returns None, which ends up in an array of energies" % (fn.short, c.func.attr),
+                           loc=fn.loc(c))
